@@ -171,9 +171,24 @@ def _create_files(  # noqa: C901, PLR0912, PLR0913
             else:
                 desc = f"Updating meta for new files in '{path}'"
                 cb = TqdmCallback(desc=desc, unit="file")
+            # NOTE: whatever sits at the path of an entry that we have failed
+            # to create (if anything) is not described by that entry
+            created = [
+                (entry, dest_path)
+                for entry, _, dest_path in args
+                if dest_path not in failed
+            ]
             with cb:
-                infos = fs.info(list(dest_paths), callback=cb, batch_size=jobs)
-                for entry, info in zip(entries, infos):
+                infos = (
+                    fs.info(
+                        [dest_path for _, dest_path in created],
+                        callback=cb,
+                        batch_size=jobs,
+                    )
+                    if created
+                    else []
+                )
+                for (entry, _), info in zip(created, infos):
                     entry.meta = Meta.from_info(info, fs.protocol)
                     index.add(entry)
 
